@@ -392,7 +392,7 @@ func headerReadsOfVar(p *core.Program, info *types.Info, fd *ast.FuncDecl, at as
 		}
 		if call, ok := src.(*ast.CallExpr); ok && len(call.Args) == 1 {
 			if f := astx.CalleeFunc(info, call); f != nil && f.Name() == "Get" && astx.TypeIs(recvType(f), "net/http", "Header") {
-				if cst := astx.ConstObj(info, call.Args[0]); cst != nil {
+				if cst := s.ConstObjOnPath(info, call.Args[0]); cst != nil {
 					out = append(out, roleUse{cst, factsOf(s), call.Pos()})
 				}
 			}
@@ -627,13 +627,44 @@ func clientEncodingValidated(c *core.Ctx) {
 		cst *types.Const
 	}
 	var validators []validator
+	// sameValue: the expression is the variable comp, or another read of the same header of the same
+	// message (Header.Get is a pure read: a second local holding response.Header.Get(<same constant>)
+	// holds the same string)
+	headerKeyOf := func(fd *ast.FuncDecl, e ast.Expr) string {
+		e = astx.Unparen(e)
+		if id, ok := e.(*ast.Ident); ok {
+			if def := soleDefinition(info, fd.Body, astx.ObjOf(info, id)); def != nil {
+				e = astx.Unparen(def)
+			}
+		}
+		if call, ok := e.(*ast.CallExpr); ok && len(call.Args) == 1 {
+			if f := astx.CalleeFunc(info, call); f != nil && f.Name() == "Get" && astx.TypeIs(recvType(f), "net/http", "Header") {
+				if cst := astx.ConstObj(info, call.Args[0]); cst != nil {
+					if sel, ok := call.Fun.(*ast.SelectorExpr); ok {
+						return astx.CanonKey(info, sel.X) + "[" + cst.Name() + "]"
+					}
+				}
+			}
+		}
+		return ""
+	}
 	isValidatedPath := func(fd *ast.FuncDecl, conj []astx.Cond, comp types.Object) bool {
-		for _, f := range conj {
-			e := astx.Unparen(f.Expr)
-			if call, ok := e.(*ast.CallExpr); ok && isMethodNamed(info, call, "Contains") && len(call.Args) == 1 && astx.ObjOf(info, call.Args[0]) == comp && f.Pol {
+		compKey := ""
+		if def := soleDefinition(info, fd.Body, comp); def != nil {
+			compKey = headerKeyOf(fd, def)
+		}
+		same := func(e ast.Expr) bool {
+			if astx.ObjOf(info, e) == comp {
 				return true
 			}
-			if l, op, r, ok := astx.CompareOp(e); ok && astx.ObjOf(info, l) == comp {
+			return compKey != "" && headerKeyOf(fd, e) == compKey
+		}
+		for _, f := range conj {
+			e := astx.Unparen(f.Expr)
+			if call, ok := e.(*ast.CallExpr); ok && isMethodNamed(info, call, "Contains") && len(call.Args) == 1 && same(call.Args[0]) && f.Pol {
+				return true
+			}
+			if l, op, r, ok := astx.CompareOp(e); ok && same(l) {
 				if s, isC := astx.ConstString(info, r); isC && (s == "" || s == "identity") && (op == token.EQL) == f.Pol {
 					return true
 				}
